@@ -1035,7 +1035,7 @@ func ConvertZToMinMaxAltitudekey(inputIndex int64, inputZoom int64, outputZoom i
 	if err != nil {
 		return 0, 0, err
 	}
-	upperBound, err := convertZToMinAltitudekey(inputIndex+1, inputZoom, outputZoom, zBaseExponent, zBaseOffset)
+	upperBound, err := convertZToMaxAltitudekey(inputIndex, inputZoom, outputZoom, zBaseExponent, zBaseOffset)
 	if err != nil {
 		return 0, 0, err
 	}
@@ -1045,14 +1045,56 @@ func ConvertZToMinMaxAltitudekey(inputIndex int64, inputZoom int64, outputZoom i
 	// mathematically the altitude associated with the lower bounds will always satisfy the solution set.
 	// b) cycle through indices from lowerBounds+1 to upperBounds with i to find any possible additional indexes
 	// that satisfy the solution set.
-	// but only output (minimum key, maximum key) as (lowerBound, upperBound - 1)
+	// but only output (minimum key, maximum key) as (lowerBound, upperBound)
 	minAltitudeKey = lowerBound
-	maxAltitudeKey = upperBound - 1
+	maxAltitudeKey = upperBound
 	if minAltitudeKey > maxAltitudeKey {
 		return minAltitudeKey, minAltitudeKey, nil
 	} else {
 		return minAltitudeKey, maxAltitudeKey, nil
 	}
+}
+
+// convertZToMaxAltitudekey (拡張)空間IDのボクセル上端を含むaltitudekeyを返却する。
+//
+// ボクセル上端の高度 (inputIndex+1)*2^(25-inputZoom) [m] を切り捨てずに扱い、
+// その高度より下にある最後のaltitudekey (ceil(上端高度のaltitudekey座標) - 1) を返却する。
+// inputIndex+1 をインデックスとして変換すると、上端がaltitudekeyの境界に揃わない場合に最上部のaltitudekeyが欠落し、
+// 当該ズームレベルの最大インデックスが入力不正となるため、上端高度そのものから算出する。
+//
+// 引数、戻り値(エラー)は convertZToMinAltitudekey と同様。
+func convertZToMaxAltitudekey(inputIndex int64, inputZoom int64, outputZoom int64, zBaseExponent int64, zBaseOffset int64) (int64, error) {
+
+	// 1. check that the input index exists in the input system
+	err, ok := validateIndexExists(inputIndex, inputZoom, true)
+	if !ok {
+		return 0, err
+	}
+
+	// 2. altitude of the top of the voxel plus zBaseOffset, as an integer: top / 2^scale [m]
+	inputZoomDifference := consts.ZOriginValue - inputZoom
+	top := common.CalculateArithmeticShift(inputIndex+1, inputZoomDifference) + zBaseOffset
+	scale := int64(0)
+	if inputZoomDifference < 0 {
+		// voxels thinner than 1m: keep the fraction by scaling the offset instead of the index
+		top = inputIndex + 1 + common.CalculateArithmeticShift(zBaseOffset, -inputZoomDifference)
+		scale = -inputZoomDifference
+	}
+
+	// 3. last altitudekey below that altitude: ceil(top * 2^shift) - 1
+	shift := outputZoom - zBaseExponent - scale
+	outputIndex := common.CalculateArithmeticShift(top, shift) - 1
+	if shift < 0 {
+		outputIndex = common.CalculateArithmeticShift(top-1, shift)
+	}
+
+	// 4. check that the output index exists in the output system
+	_, ok = validateIndexExists(outputIndex, outputZoom, false)
+	if !ok {
+		return 0, errors.NewSpatialIdError(errors.InputValueErrorCode, "output index does not exist with given outputZoom, zBaseExponent, and zBaseOffset")
+	}
+
+	return outputIndex, nil
 }
 
 func convertZToMinAltitudekey(inputIndex int64, inputZoom int64, outputZoom int64, zBaseExponent int64, zBaseOffset int64) (int64, error) {
